@@ -395,7 +395,7 @@ func runC13(c *hx.Ctx) *hx.Outcome {
 		if len(src.Handed) < len(wantData) {
 			o.Fail("C13/stopped-early", "the handler stopped after %d of %d bytes although every interruption ended within the tolerance (tolerance %dms wait %dms interruptions %+v)", len(src.Handed), len(wantData), tol, wait, ints)
 		} else {
-			o.Fail("C13/harness", "source handed %d bytes, expected at most %d", len(src.Handed), len(wantData))
+			o.Fail("C13/read-on-after-stop", "the handler kept reading after a result that must stop it: the source handed over %d bytes, the stop was due after %d (tolerance %dms wait %dms interruptions %+v)", len(src.Handed), len(wantData), tol, wait, ints)
 		}
 	}
 	if closed != 1 {
